@@ -118,6 +118,7 @@ func Load(root string, patterns ...string) *World {
 	prog, spkgs := ssautil.AllPackages(pkgs, ssa.InstantiateGenerics)
 	prog.Build()
 	w.Prog = prog
+	theWorld = w
 	for i, p := range pkgs {
 		if spkgs[i] == nil {
 			infra("no SSA package for %s", p.PkgPath)
@@ -212,6 +213,34 @@ func (w *World) MethodOpt(pkg *ssa.Package, tname, name string) *ssa.Function {
 					return fn
 				}
 			}
+		}
+	}
+	// not under that name: the method of the type that plays the role by shape
+	switch name {
+	case "patch", "diff", "hashCode", "raw", "next", "drop", "isLeaf", "ident", "pathIdent":
+		var found []*ssa.Function
+		for _, recv := range []types.Type{t.Type(), types.NewPointer(t.Type())} {
+			ms := w.Prog.MethodSets.MethodSet(recv)
+			for i := 0; i < ms.Len(); i++ {
+				fn := w.Prog.MethodValue(ms.At(i))
+				if fn != nil && fn.Synthetic == "" && w.fnIs(fn, name) {
+					dup := false
+					for _, g := range found {
+						if g == fn {
+							dup = true
+						}
+					}
+					if !dup {
+						found = append(found, fn)
+					}
+				}
+			}
+			if len(found) > 0 {
+				break
+			}
+		}
+		if len(found) == 1 {
+			return found[0]
 		}
 	}
 	return nil
@@ -333,9 +362,76 @@ func fnName(fn *ssa.Function) string {
 		if n, ok := rt.(*types.Named); ok {
 			tn = n.Obj().Name()
 		}
-		return fmt.Sprintf("%s.(%s).%s", pn, tn, fn.Name())
+		return fmt.Sprintf("%s.(%s).%s", pn, tn, canonFnName(fn))
 	}
-	return pn + "." + fn.Name()
+	return pn + "." + canonFnName(fn)
+}
+
+// canonFnName: the name obligations are keyed by: the canonical role name of
+// a renamed internal method / helper (so that keys, known findings and
+// variants survive a rename), else the function's own name.
+var theWorld *World
+var canonCache = map[*ssa.Function]string{}
+
+func canonFnName(fn *ssa.Function) string {
+	if n, ok := canonCache[fn]; ok {
+		return n
+	}
+	name := fn.Name()
+	canonCache[fn] = name
+	if theWorld == nil || fn.Synthetic != "" {
+		return name
+	}
+	if obj, _ := fn.Object().(*types.Func); obj == nil || obj.Exported() {
+		return name
+	}
+	roles := []string{"patch", "diff", "hashCode", "raw", "next", "drop", "isLeaf", "ident", "pathIdent"}
+	if fn.Signature.Recv() == nil {
+		roles = []string{"getPatchStrategy", "isVoid", "isNull", "nodeList"}
+		for r := range anchorTable {
+			roles = append(roles, r)
+		}
+		sort.Strings(roles)
+	}
+	for _, r := range roles {
+		if name != r && theWorld.fnIs(fn, r) {
+			name = r
+			break
+		}
+	}
+	canonCache[fn] = name
+	return name
+}
+
+// ifaceRoleName: the actual name of the internal node interface's method that
+// plays the role (patch, diff, hashCode, raw) in the package of t.
+func ifaceRoleName(pkg *types.Package, role string) string {
+	if pkg == nil {
+		return role
+	}
+	for _, n := range pkg.Scope().Names() {
+		tn, ok := pkg.Scope().Lookup(n).(*types.TypeName)
+		if !ok || tn.Exported() {
+			continue
+		}
+		it, ok := tn.Type().Underlying().(*types.Interface)
+		if !ok {
+			continue
+		}
+		for i := 0; i < it.NumExplicitMethods(); i++ {
+			m := it.ExplicitMethod(i)
+			if m.Name() == role {
+				return role
+			}
+		}
+		for i := 0; i < it.NumExplicitMethods(); i++ {
+			m := it.ExplicitMethod(i)
+			if sigRole(m.Type().(*types.Signature)) == role {
+				return m.Name()
+			}
+		}
+	}
+	return role
 }
 
 // moduleVersion: version of the module providing the imported package path.
@@ -497,4 +593,142 @@ func (w *World) helperIs(fn *ssa.Function, role string) bool {
 			strings.HasSuffix(sig.Results().At(0).Type().String(), "JsonNode") && strings.HasPrefix(sig.Results().At(0).Type().String(), "[]")
 	}
 	return false
+}
+
+// ---------------------------------------------------------------- method roles
+//
+// The unexported methods the rules talk about (patch, diff, hashCode, raw of
+// the internal node interface; next, drop, isLeaf of the path type; ident,
+// pathIdent of the object type) are recognised by their current name or,
+// when a maintainer renamed them, by their shape.
+
+// sigRole: role of a method signature of the internal node interface.
+func sigRole(sig *types.Signature) string {
+	res := sig.Results()
+	switch {
+	case res.Len() == 2 && typeName(res.At(0).Type()) == "JsonNode" && isErrorType(res.At(1).Type()) && sig.Params().Len() >= 5:
+		return "patch"
+	case res.Len() == 1 && typeName(res.At(0).Type()) == "Diff" && sig.Params().Len() >= 3 && !sig.Variadic():
+		return "diff"
+	case res.Len() == 1 && sig.Params().Len() == 1 && !sig.Variadic():
+		if a, ok := res.At(0).Type().Underlying().(*types.Array); ok && a.Len() == 8 {
+			return "hashCode"
+		}
+	case res.Len() == 1 && sig.Params().Len() == 0:
+		if it, ok := res.At(0).Type().Underlying().(*types.Interface); ok && it.NumMethods() == 0 {
+			return "raw"
+		}
+	}
+	return ""
+}
+
+// methodIs: the (interface or concrete) method m plays the named role.
+func methodIs(m *types.Func, role string) bool {
+	if m == nil {
+		return false
+	}
+	if m.Name() == role {
+		return true
+	}
+	if m.Exported() {
+		return false
+	}
+	sig, ok := m.Type().(*types.Signature)
+	if !ok || sig.Recv() == nil {
+		return false
+	}
+	switch role {
+	case "patch", "diff", "hashCode", "raw":
+		return m.Name() == ifaceRoleName(m.Pkg(), role)
+	}
+	return false
+}
+
+func hasMethodNamed(t types.Type, name string) bool {
+	if p, ok := t.(*types.Pointer); ok {
+		t = p.Elem()
+	}
+	if it, ok := t.Underlying().(*types.Interface); ok {
+		for i := 0; i < it.NumMethods(); i++ {
+			if it.Method(i).Name() == name {
+				return true
+			}
+		}
+		return false
+	}
+	if n, ok := t.(*types.Named); ok {
+		for i := 0; i < n.NumMethods(); i++ {
+			if n.Method(i).Name() == name {
+				return true
+			}
+		}
+	}
+	return false
+}
+
+// fnIs: the function or method fn plays the named role.
+func (w *World) fnIs(fn *ssa.Function, role string) bool {
+	if fn == nil {
+		return false
+	}
+	fn = origin(fn)
+	if fn.Name() == role {
+		return true
+	}
+	if obj, _ := fn.Object().(*types.Func); obj != nil && obj.Exported() {
+		return false
+	}
+	sig := fn.Signature
+	recvName := ""
+	if sig.Recv() != nil {
+		recvName = typeName(sig.Recv().Type())
+		if hasMethodNamed(sig.Recv().Type(), role) {
+			return false
+		}
+	} else if p := fnPkg(fn); p != nil && p.Scope().Lookup(role) != nil {
+		return false
+	}
+	isPath := recvName == "Path" || recvName == "path"
+	switch role {
+	case "patch", "diff", "hashCode", "raw":
+		if sig.Recv() != nil {
+			// a method: the one implementing the interface method of that shape
+			return fn.Name() == ifaceRoleName(fnPkg(fn), role)
+		}
+		return w.helperIs(fn, role)
+	case "next":
+		return isPath && sig.Params().Len() == 0 && sig.Results().Len() == 3
+	case "drop":
+		return isPath && sig.Params().Len() == 0 && sig.Results().Len() == 1 && typeName(sig.Results().At(0).Type()) == recvName && fn.Blocks != nil && returnsPrefix(fn)
+	case "isLeaf":
+		return isPath && sig.Params().Len() == 0 && sig.Results().Len() == 1 && sig.Results().At(0).Type().String() == "bool"
+	case "ident":
+		return recvName == "jsonObject" && sig.Params().Len() == 1 && sig.Results().Len() == 1 && isDigestType(sig.Results().At(0).Type()) && fn.Name() != ifaceRoleName(fnPkg(fn), "hashCode")
+	case "pathIdent":
+		return recvName == "jsonObject" && sig.Params().Len() == 2 && sig.Results().Len() == 1 && isDigestType(sig.Results().At(0).Type())
+	case "getPatchStrategy":
+		return sig.Recv() == nil && sig.Params().Len() == 1 && sig.Results().Len() == 1 && typeName(sig.Results().At(0).Type()) == "patchStrategy"
+	case "checkOption":
+		return sig.Recv() == nil && fn.TypeParams().Len() == 1 && sig.Results().Len() == 1 && sig.Results().At(0).Type().String() == "bool"
+	case "getOption":
+		return sig.Recv() == nil && fn.TypeParams().Len() == 1 && sig.Results().Len() == 2
+	}
+	return w.helperIs(fn, role)
+}
+
+func isDigestType(t types.Type) bool {
+	a, ok := t.Underlying().(*types.Array)
+	return ok && a.Len() == 8
+}
+
+// returnsPrefix: every return of fn is its receiver cut with a high bound.
+func returnsPrefix(fn *ssa.Function) bool {
+	ok := false
+	for _, ret := range returnsOf(fn) {
+		sl, isSl := strip(ret.Results[0]).(*ssa.Slice)
+		if isSl && sl.High != nil {
+			ok = true
+		}
+	}
+	return ok
 }
